@@ -160,11 +160,18 @@ def _key_text(kr, plain):
 
 def concretise(doc, style="block", plain=False):
     """Node table -> YAML text."""
+    def ktxt(n, j):
+        """Text of the j-th key of map node n: `*NAME ` when the key is an Alias of the Anchor NAME (kanch), else its spelling."""
+        ka = n.get("kanch") or []
+        if j < len(ka) and ka[j]:
+            return "*%s " % ka[j]
+        return _key_text(n["keys"][j], plain)
+
     def flow(i):
         n = doc[i - 1]
         pre = ("&%s " % n["anchor"]) if n["anchor"] and n["k"] != "s" else ""
         if n["k"] == "map":
-            return pre + "{" + ", ".join("%s: %s" % (_key_text(k, plain), flow(c)) for k, c in zip(n["keys"], n["kids"])) + "}"
+            return pre + "{" + ", ".join("%s: %s" % (ktxt(n, j), flow(c)) for j, c in enumerate(n["kids"])) + "}"
         if n["k"] == "seq":
             return pre + "[" + ", ".join(flow(c) for c in n["kids"]) + "]"
         if n["k"] == "set":
@@ -192,8 +199,8 @@ def concretise(doc, style="block", plain=False):
                 ind2 = ind
             pad2 = "  " * ind2
             if n["k"] == "map":
-                for k, c in zip(n["keys"], n["kids"]):
-                    block(c, ind2, lines, _key_text(k, plain) + ":")
+                for j, c in enumerate(n["kids"]):
+                    block(c, ind2, lines, ktxt(n, j) + ":")
             elif n["k"] == "seq":
                 for c in n["kids"]:
                     block(c, ind2, lines, "-")
@@ -280,10 +287,14 @@ def abstract(data, with_positions=False):
             else:
                 seen_anchor.setdefault(a, me)
         if n["k"] == "map":
+            kanch = []
             for key, val in x.items():
                 kt, kv = scalar_tv(key)
                 n["keys"].append({"t": kt, "v": kv})
+                kanch.append(anchor_of(key))
                 n["kids"].append(add(val, me, x, key))
+            if any(kanch):
+                n["kanch"] = kanch      # keys that are Aliases (or definitions) of an Anchor: only present when there are any
         elif n["k"] == "seq":
             for idx, val in enumerate(x):
                 n["kids"].append(add(val, me, x, idx))
@@ -321,6 +332,9 @@ def same_table(a, b, anchors=True):
             if x[f] != y[f]:
                 return False
         if x["keys"] != y["keys"]:
+            return False
+        if anchors and [a for a in (x.get("kanch") or []) if a] != [a for a in (y.get("kanch") or []) if a] and \
+                (x.get("kanch") or []) != (y.get("kanch") or []):
             return False
         if x["k"] == "s":
             tx = (x["t"], repr(float(x["v"])) if x["t"] == "float" else x["v"].lower() if x["t"] == "bool" else x["v"])
